@@ -434,6 +434,16 @@ def do_setup():
         subprocess.check_call(cmd)
         sys.path.insert(1, deps)
         import hypothesis  # noqa
+    try:
+        sys.path.insert(1, os.path.join(ROOT, ".deps"))
+        import atheris  # noqa
+    except ImportError:
+        deps = os.path.join(ROOT, ".deps")
+        os.makedirs(deps, exist_ok=True)
+        r = subprocess.run([sys.executable, "-m", "pip", "install", "--no-index", "--find-links", "/opt/veriftools/wheels",
+                            "--target", deps, "atheris"], capture_output=True, text=True)
+        print("setup: atheris", "installed into .deps" if r.returncode == 0 else
+              "not available (the coverage-guided leg of the thorough tier is skipped): " + r.stderr.strip()[-200:])
     import numpy, pyarrow, pandas, wcwidth, attd  # noqa
     try:
         import numba  # noqa
@@ -554,6 +564,18 @@ def _main(args, pid, seed_base, t0, work):
         log = open(os.path.join(work, f"shard{k}.log"), "w")
         env = dict(os.environ, VERIF_TRACE_PLAN=trace)
         procs.append((k, out, trace, log, subprocess.Popen(cmd, stdout=log, stderr=subprocess.STDOUT, env=env)))
+    # coverage-guided leg (thorough tier, modules that declare FUZZ_RUNS): atheris drives the same strategy + check
+    fuzz = []
+    fuzz_runs = getattr(mod, "FUZZ_RUNS", {}).get(tier)
+    if fuzz_runs and os.path.isdir(os.path.join(ROOT, ".deps", "atheris")):
+        for k in range(8):
+            out = os.path.join(work, f"fuzz{k}.json")
+            corpus = os.path.join(work, f"corpus{k}")
+            os.makedirs(corpus, exist_ok=True)
+            env = dict(os.environ, PYTHONPATH=os.pathsep.join([os.path.join(ROOT, ".deps"), ROOT]))
+            cmd = [sys.executable, "-m", "vlib.fuzz", pid, str(fuzz_runs), str(seed_base * 100 + k + 1), out, corpus]
+            log = open(os.path.join(work, f"fuzz{k}.log"), "w")
+            fuzz.append((out, log, subprocess.Popen(cmd, stdout=log, stderr=subprocess.STDOUT, env=env, cwd=ROOT)))
     for k, out, trace, log, p in procs:
         p.wait()
         log.close()
@@ -570,6 +592,26 @@ def _main(args, pid, seed_base, t0, work):
         with open(out) as f:
             results.append(json.load(f))
 
+    fuzz_execs, fuzz_nt = 0, set()
+    for out, log, p in fuzz:
+        try:
+            p.wait(timeout=budget)
+        except subprocess.TimeoutExpired:
+            p.kill()
+        log.close()
+        if os.path.exists(out):
+            with open(out) as f:
+                fr = json.load(f)
+            fuzz_execs += fr["fuzz_execs"]
+            fuzz_nt |= set(fr["nt_hashes"])
+            if fr.get("violation"):
+                violations.append(fr["violation"])
+    if fuzz:
+        results.append({"evaluations": fuzz_execs, "distinct": len(fuzz_nt), "nt_hashes": sorted(fuzz_nt), "classes": {},
+                        "excluded": {}, "rejected": {}, "known": {}, "samples": [], "violation": None,
+                        "harness_error": None, "skipped_time": 0, "wall_s": 0, "seed": seed_base})
+        mod.EXTRA_COVERAGE = dict(getattr(mod, "EXTRA_COVERAGE", None) or {}, fuzz_execs=fuzz_execs,
+                                  fuzz_processes=len(fuzz), fuzz_engine="atheris/libFuzzer via hypothesis.fuzz_one_input, dataiter instrumented")
     if pending is not None:
         r = pending.get()
         violations += r.pop("violations", [])
